@@ -50,6 +50,8 @@ PROP = dict(
                  "text fed to fgets contains no NUL byte (::fgets cannot represent it)",
                  "the process runs as root on a filesystem that accepts every byte except '/' and NUL in names (ext4)",
                  "load_file under a short-read plan may throw (it must not return a truncated string)",
+                 "faults are delivered through read(), pread(), write() and close() on the descriptor the helper is expected to open next; a case whose "
+                 "helper never met its plan (another system call, another descriptor) is excluded and counted (fault-plan-not-delivered), not judged",
                  "save_file under a short or failed write() may throw (it must not return normally with a file that differs from d)",
                  "Poll::remove(fd, true) is not applied to a number that was closed behind Poll's back (it is run as a plain remove): what "
                  "closing a closed descriptor does is not part of the map contract",
